@@ -825,6 +825,98 @@ func (h *h2Hist) opForeignRefresh0(c *h2Client) {
 	h.do(fmt.Sprintf("m %s %d refresh %d %s lt=0 fam=-", k, len(raw), h.tid, cr), func() { c.sendRaw(raw) })
 }
 
+// opChanRebind (C05, C08): a peer sends through its channel, the binding expires while the permission is kept alive, the
+// number is bound to ANOTHER peer, and the first peer sends again with nobody else in between: its data must now come as a
+// Data indication naming it, never as ChannelData on the number that is no longer (or no longer its) binding.
+func (h *h2Hist) opChanRebind(c *h2Client) {
+	a := h.live(c)
+	if a == nil {
+		return
+	}
+	relay, _ := a.RelayAddr.(*net.UDPAddr)
+	if relay == nil {
+		return
+	}
+	p, sib := h.peers[0], h.peers[1]
+	if relay.IP.To4() == nil {
+		p, sib = h.peers[4], h.peers[5]
+	}
+	srv := h.w.srv
+	T, step := srv.channelBindTimeout, srv.permissionTimeout/2
+	if T > 20*time.Minute || step < time.Second || T/step > 12 {
+		return
+	}
+	for _, cb := range a.ListChannelBindings() { // only from a clean slate for both peers
+		for _, q := range []*net.UDPAddr{p, sib} {
+			if u, _ := cb.Peer.(*net.UDPAddr); u != nil && u.IP.Equal(q.IP) && u.Port == q.Port {
+				return
+			}
+		}
+		if cb.Number == 0x4200 {
+			return
+		}
+	}
+	h.vt.Stat("macro.chanrebind")
+	rs := canonAddr(relay)
+	pa := proto.PeerAddress{IP: p.IP, Port: p.Port}
+	from := func(q *net.UDPAddr) {
+		sock := h.w.peerUDPSock(q.IP, q.Port)
+		d := h.payload()
+		h.do(fmt.Sprintf("pdata %s %s %s", rs, canonAddr(q), vhHex(d)), func() { _, _ = sock.WriteTo(d, relay) })
+	}
+	keep := func() {
+		h.goodReq(c, stun.MethodRefresh, "refresh", "lt=3600 fam=-", proto.Lifetime{Duration: time.Hour})
+	}
+	keep()
+	h.goodReq(c, stun.MethodChannelBind, "bind", fmt.Sprintf("num=%d peer=%s", 0x4200, canonAddr(p)), proto.ChannelNumber(0x4200), pa)
+	from(p)
+	for el := time.Duration(0); el < T+time.Second; el += step {
+		h.sleepOp(step)
+		keep()
+		h.goodReq(c, stun.MethodCreatePermission, "perm", canonAddr(p), pa)
+	}
+	from(p) // the binding has expired, the permission has not
+	h.goodReq(c, stun.MethodChannelBind, "bind", fmt.Sprintf("num=%d peer=%s", 0x4200, canonAddr(sib)), proto.ChannelNumber(0x4200), proto.PeerAddress{IP: sib.IP, Port: sib.Port})
+	from(p) // the number now belongs to the sibling port
+	from(sib)
+}
+
+// opStreamOversize (C05, C10): over a stream transport one frame of inboundMTU bytes or more is dropped whole, and the frame
+// right behind it is served as if nothing had happened
+func (h *h2Hist) opStreamOversize(c *h2Client) bool {
+	a := h.live(c)
+	if a == nil || c.conn == nil || c.isData {
+		return false
+	}
+	relay, _ := a.RelayAddr.(*net.UDPAddr)
+	if relay == nil {
+		return false
+	}
+	p := h.peers[0]
+	if relay.IP.To4() == nil {
+		p = h.peers[4]
+	}
+	h.vt.Stat("macro.streamoversize")
+	pa := proto.PeerAddress{IP: p.IP, Port: p.Port}
+	h.goodReq(c, stun.MethodCreatePermission, "perm", canonAddr(p), pa)
+	k := c.key()
+	big := h.vt.Bytes(h.w.srv.inboundMTU + h.rng.Intn(40))
+	// the oversize payload itself looks like a sequence of small Send indications to the same peer
+	h.tid++
+	inner := h.build(stun.NewType(stun.MethodSend, stun.ClassIndication), h.tid, nil, proto.Data([]byte{0xde, 0xad}), pa)
+	for off := 0; off+len(inner) <= len(big); off += len(inner) {
+		copy(big[off:], inner)
+	}
+	h.tid++
+	raw := h.build(stun.NewType(stun.MethodSend, stun.ClassIndication), h.tid, nil, proto.Data(big), pa)
+	h.do(fmt.Sprintf("m %s %d send %s %s", k, len(raw), vhHex(big), canonAddr(p)), func() { c.sendRaw(raw) })
+	d := h.payload()
+	h.tid++
+	raw2 := h.build(stun.NewType(stun.MethodSend, stun.ClassIndication), h.tid, nil, proto.Data(d), pa)
+	h.do(fmt.Sprintf("m %s %d send %s %s", k, len(raw2), vhHex(d), canonAddr(p)), func() { c.sendRaw(raw2) })
+	return true
+}
+
 func (h *h2Hist) opStraddle(c *h2Client) {
 	a := h.live(c)
 	if a == nil || c.conn != nil && false {
@@ -1140,15 +1232,21 @@ func runH2History(t *testing.T, vt *vhT, seed int64, nOps int) {
 				h.opPeerConn()
 			case r < 91:
 				h.opPipe()
-			case r < 95:
+			case r < 94:
 				h.opAdvance()
 			case r < 97:
 				if has && !h.tcpMode {
-					switch rng.Intn(5) {
+					switch rng.Intn(6) {
 					case 0:
 						h.opManyChannels(c)
 					case 1:
 						h.opForeignRefresh0(c)
+					case 2:
+						h.opChanRebind(c)
+					case 3:
+						if !h.opStreamOversize(c) {
+							h.opStraddle(c)
+						}
 					default:
 						h.opStraddle(c)
 					}
